@@ -176,8 +176,12 @@ class C05(runner.Prop):
             eng_leaves, spec = optree.tree_flatten(t, **kw)
             post = model.postorder_nodes(ms)
             seen_leaf, seen_node = [], []
-            out = spec.traverse(eng_leaves, lambda node: (seen_node.append(node), node)[1],
-                                lambda leaf: (seen_leaf.append(leaf), leaf)[1])
+            try:
+                out = spec.traverse(eng_leaves, lambda node: (seen_node.append(node), node)[1],
+                                    lambda leaf: (seen_leaf.append(leaf), leaf)[1])
+            except Exception as e:  # noqa: BLE001
+                ctx.fail('traverse/raises', f'{type(e).__name__}: {e}; spec={spec}')
+                return
             if not compare.same_leaves(seen_leaf, leaves):
                 ctx.fail('traverse/leaf_order', f'{seen_leaf!r} vs {leaves!r}')
             if [type(x) for x in seen_node] != [p.type for p in post]:
@@ -198,7 +202,18 @@ class C05(runner.Prop):
                 return len(calls) - 1
 
             seen_leaf2 = []
-            spec.walk(eng_leaves, f_node, lambda leaf: (seen_leaf2.append(leaf), leaf)[1])
+            try:
+                spec.walk(eng_leaves, f_node, lambda leaf: (seen_leaf2.append(leaf), leaf)[1])
+                # the defaults: no functions = rebuild the tree (traverse) / every node as the raw triple (walk)
+                d = model.same_tree(t, spec.traverse(eng_leaves))
+                if d:
+                    ctx.fail('traverse/defaults', d)
+                d = model.same_tree(t, spec.traverse(iter(eng_leaves), None, None))
+                if d:
+                    ctx.fail('traverse/defaults_iterator', d)
+            except Exception as e:  # noqa: BLE001
+                ctx.fail('walk/raises', f'{type(e).__name__}: {e}; spec={spec}')
+                return
             if not compare.same_leaves(seen_leaf2, leaves):
                 ctx.fail('walk/leaf_order', '')
             if len(calls) != len(post):
